@@ -598,11 +598,9 @@ def gen_bs(r, tier):
         elif k == "oversize_full":
             f = {"k": "oversize", "total": MAX_MSG + r.choice([1, 2, 100]), "token": gen_token(r, used, i).hex()}
         elif k == "maxsize_ok":
-            f = {"k": "req", "code": 2, "token": gen_token(r, used, i).hex(), "len": MAX_MSG - 2 - r.choice([0, 1]), "r": 5,
-                 "o": 0, "seed": 9, "opts": []}
-            f["len"] -= len(bytes.fromhex(f["token"]))
-            if r.chance(0.5):
-                f["len"] -= 1
+            # total frame length (5 bytes Len+ext, code, token, body) exactly at / just below the limit
+            f = {"k": "req", "code": 2, "token": gen_token(r, used, i).hex(), "r": 5, "o": 0, "seed": 9, "opts": []}
+            f["len"] = MAX_MSG - r.choice([0, 0, 1, 2]) - 6 - len(bytes.fromhex(f["token"]))
         else:
             f = {"k": "raw", "hex": gen_garbage(r).hex(), "garbage": True}
         if r.chance(0.12):
@@ -868,7 +866,7 @@ def corpus():
         {"w": "Bs", "ops": [CSM_PLAIN, {"k": "empty"}], "chunk": whole},
         {"w": "Bs", "ops": [CSM_PLAIN, {"k": "badutf8", "token": "01", "bad": "ff"}], "chunk": whole},
         # size limit: exactly at the limit is accepted, one more byte is refused
-        {"w": "Bs", "ops": [CSM_FULL, _req("a1", MAX_MSG - 3, 5, code=2)], "chunk": {"c2s": {"mode": "fixed", "size": 300000}, "s2c": {"mode": "whole"}}},
+        {"w": "Bs", "ops": [CSM_FULL, _req("a1", MAX_MSG - 7, 5, code=2)], "chunk": {"c2s": {"mode": "fixed", "size": 300000}, "s2c": {"mode": "whole"}}},
         {"w": "Bs", "ops": [CSM_FULL, {"k": "oversize", "total": MAX_MSG + 1, "token": "a2"}],
          "chunk": {"c2s": {"mode": "fixed", "size": 300000}, "s2c": {"mode": "whole"}}},
         {"w": "Bs", "ops": [CSM_FULL, {"k": "oversize", "total": MAX_MSG + 1, "sent": 5, "token": ""}], "chunk": bytesw},
